@@ -10,13 +10,15 @@ from .suites import common
 _CONFS = {}
 
 
-def _conf(enforce_scope, default_rule_opt=None):
-    key = (enforce_scope, default_rule_opt)
+def _conf(enforce_scope, default_rule_opt=None, content_type=None):
+    key = (enforce_scope, default_rule_opt, content_type)
     if key not in _CONFS:
         c = impl.new_conf()
         c.set_override('enforce_scope', enforce_scope, group='oslo_policy')
         if default_rule_opt is not None:
             c.set_override('policy_default_rule', default_rule_opt, group='oslo_policy')
+        if content_type is not None:
+            c.set_override('remote_content_type', content_type, group='oslo_policy')
         _CONFS[key] = c
     return _CONFS[key]
 
@@ -30,7 +32,7 @@ def impl_run(sc):
         default_rule = d
     elif isinstance(d, dict):
         default_rule = _parser.parse_rule(d['check'])
-    conf = _conf(sc.get('enforce_scope', True), sc.get('default_opt'))
+    conf = _conf(sc.get('enforce_scope', True), sc.get('default_opt'), sc.get('content_type'))
     e = policy.Enforcer(conf, use_conf=False, default_rule=default_rule)
     e.set_rules(policy.Rules.from_dict(sc['rules'], e.default_rule), use_conf=False)
     for name, st in sc.get('registered', []):
@@ -69,7 +71,8 @@ def effective_default(sc):
         return d
     if d:
         return d
-    return sc.get('default_opt') or 'default'
+    opt = sc.get('default_opt')
+    return 'default' if opt is None else opt      # '' = option overridden to empty: no default rule at all
 
 
 def model_request(sc):
